@@ -148,6 +148,7 @@ def shards(tier, seed):
         sh.append(("recvfault", L))
     sh += [("send", n) for n in (1, 2, 3, 24, 28, 64, 300, 4002)]
     sh += [("recvseq", L1, L2) for L1 in (0, 4, 300) for L2 in (0, 3, 40, 256)]
+    sh += [("recv", 4, "debuglog"), ("recvfault", 0, "debuglog"), ("send", 24, "debuglog"), ("recvseq", 4, 3, "debuglog")]
     if tier == "thorough":
         # every composition of the 24/25/26-byte frames, sharded by the size of the first chunk
         sh += [("allcomp", L, first) for L in (0, 1, 2) for first in range(24 + L)]
